@@ -48,6 +48,7 @@ Proof.
   - destruct (if newest then rev (heldq s) else heldq s); cbn; rewrite pos_zero_false, orb_false_r; reflexivity.
   - rewrite bip_upd_cur. rewrite pos_zero_false. cbn. rewrite orb_false_r.
     unfold upd_cur. destruct (cur s); reflexivity.
+  - rewrite pos_zero_false. cbn. rewrite orb_false_r. reflexivity.
 Qed.
 
 Lemma bip_op_st_bounds v c s o : 0 <= nbk c -> 0 <= bip s <= nbk c -> 0 <= bip (op_st v c s o) <= nbk c.
@@ -63,6 +64,7 @@ Proof.
   - destruct (gate v c s && allowed); exact H.
   - destruct (if newest then rev (heldq s) else heldq s); exact H.
   - rewrite bip_upd_cur. exact H.
+  - exact H.
 Qed.
 
 Lemma flush_keeps v c s : bip (flush v c s) = bip s /\ endev (flush v c s) = endev s /\ slam (flush v c s) = slam s /\
@@ -287,6 +289,7 @@ Proof.
   - destruct (gate v c s && allowed); ess.
   - destruct (if newest then rev (heldq s) else heldq s); ess.
   - unfold upd_cur. destruct (cur s); ess.
+  - ess.
 Qed.
 
 Lemma Re_op c s m o : Re s m ->
@@ -519,6 +522,7 @@ Proof.
     + eexists. split; [reflexivity|]. split; [cbn [xsl]; rewrite Sl, A; reflexivity|]. intro i. cbn [xbal].
       unfold extra_i at 1. cbn [players set_players]. rewrite (extra_i_upd_snd S s j i) by lia.
       unfold xupd. rewrite B. reflexivity.
+  - reflexivity.
 Qed.
 
 Lemma Rx_flush c s m : Rx s m -> Rx (flush fixed c s) m.
